@@ -1,8 +1,12 @@
 import XalanModel.Containers.VectorProofs
+import XalanModel.Containers.VectorTraceProofs
+import XalanModel.Containers.ElemTraceProofs
 import XalanModel.Containers.XMapProofs
 import XalanModel.Containers.DequeProofs
 import XalanModel.Containers.XListProofs
+import XalanModel.Containers.PListProofs
 import XalanModel.Containers.DOMStringProofs
+import XalanModel.Containers.DOMStringCompareProofs
 import XalanModel.Containers.ObjCacheProofs
 import XalanModel.Containers.StringPoolProofs
 import XalanModel.Containers.BitmapProofs
@@ -240,6 +244,105 @@ real code — libstdc++ turns both calls into `memmove` for trivially copyable t
 theorem vector_insert_forward_copy_counterexample :
     (Vec.insertRangeForwardCopy (⟨[1, 2, 3], 9⟩ : Vec Nat) 0 [7]).map (·.items) = some [7, 1, 1, 3] ∧
     (Vec.insertRange (⟨[1, 2, 3], 9⟩ : Vec Nat) 0 [7]).map (·.items) = some [7, 1, 2, 3] := by
+  decide
+
+
+/-! ## Vector: every element object is constructed exactly once before any use and destroyed exactly once -/
+
+/-- the XalanVector code paths with the event log (`VectorTrace.lean`) -/
+def TVec.step (t : TVec α) : VOp α → Option (TVec α)
+  | .push x => t.pushBack x
+  | .pop => t.popBack
+  | .insertOne pos x => t.insertN pos 1 x
+  | .insertN pos n x => t.insertN pos n x
+  | .insertRange pos xs => t.insertRange pos xs
+  | .erase f l => t.erase f l
+  | .resize n x => t.resize n x
+  | .reserve n => some (t.reserve n)
+  | .clear => t.clear
+  | .assign xs => t.assign xs
+  | .copyAssign rhs => t.copyAssign rhs
+
+def TVec.run : List (VOp α) → TVec α → Option (TVec α)
+  | [], t => some t
+  | op :: ops, t => (TVec.step t op).bind (TVec.run ops)
+
+/-- forgetting the log gives exactly the operations proved correct above -/
+theorem vector_trace_projection (t : TVec α) (op : VOp α) : (TVec.step t op).map (·.v) = Vec.step t.v op := by
+  cases op with
+  | push x => exact TVec.proj_pushBack t x
+  | pop => exact TVec.proj_popBack t
+  | insertOne pos x => exact TVec.proj_insertN t pos 1 x
+  | insertN pos n x => exact TVec.proj_insertN t pos n x
+  | insertRange pos xs => exact TVec.proj_insertRange t pos xs
+  | erase f l => exact TVec.proj_erase t f l
+  | resize n x => exact TVec.proj_resize t n x
+  | reserve n => simp [TVec.step, Vec.step, TVec.proj_reserve]
+  | clear => exact TVec.proj_clear t
+  | assign xs => exact TVec.proj_assign t xs
+  | copyAssign rhs => exact TVec.proj_copyAssign t rhs
+
+/-- One operation: whenever it runs, the events it logs pass the placement discipline from the cells
+left by the log so far — a cell is copy-constructed only while raw (and only the first raw cell of its
+buffer), assigned only while constructed, destroyed only while constructed, a buffer is released with
+exactly its constructed cells — the current buffer ends with exactly `size` constructed cells, only
+fresh buffers are allocated and foreign buffers are untouched. -/
+theorem vector_events_step (t : TVec α) (op : VOp α) (l0 l : Live) (h : TVec.TInv t l0 l) (t' : TVec α)
+    (e : TVec.step t op = some t') : ∃ l', TVec.TInv t' l0 l' ∧ TVec.Ext t l t' l' := by
+  cases op with
+  | push x => exact TVec.pres_pushBack x t l0 l h t' e
+  | pop => exact TVec.pres_popBack t l0 l h t' e
+  | insertOne pos x => exact TVec.pres_insertN pos 1 x t l0 l h t' e
+  | insertN pos n x => exact TVec.pres_insertN pos n x t l0 l h t' e
+  | insertRange pos xs => exact TVec.pres_insertRange pos xs t l0 l h t' e
+  | erase f la => exact TVec.pres_erase f la t l0 l h t' e
+  | resize n x => exact TVec.pres_resize n x t l0 l h t' e
+  | reserve n => exact TVec.pres_reserve n t l0 l h t' e
+  | clear => exact TVec.pres_clear t l0 l h t' e
+  | assign xs => exact TVec.pres_assign xs t l0 l h t' e
+  | copyAssign rhs => exact TVec.pres_copyAssign rhs t l0 l h t' e
+
+/-- the alias forms of the repair (one extra temporary element: constructed before, released after) -/
+theorem vector_events_alias (t : TVec α) (l0 l : Live) (h : TVec.TInv t l0 l) (t' : TVec α) (pos n i : Nat) :
+    (t.insertNSelf pos n i = some t' → ∃ l', TVec.TInv t' l0 l' ∧ TVec.Ext t l t' l') ∧
+    (t.resizeSelf n i = some t' → ∃ l', TVec.TInv t' l0 l' ∧ TVec.Ext t l t' l') ∧
+    (t.pushBackSelf i = some t' → ∃ l', TVec.TInv t' l0 l' ∧ TVec.Ext t l t' l') :=
+  ⟨TVec.pres_insertNSelf pos n i t l0 l h t', TVec.pres_resizeSelf n i t l0 l h t', TVec.pres_pushBackSelf i t l0 l h t'⟩
+
+/-- **C20 (vector), event form.** For every operation history inside `std::vector`'s preconditions the logged
+run exists, its element sequence is the specified one, and its whole log — every copy construction,
+assignment, destructor call and buffer release since the vector was created — passes the placement
+discipline: each cell is constructed exactly once before it is assigned or read, and destroyed exactly once;
+at the end exactly the cells `[0, size)` of the current buffer are constructed. -/
+theorem vector_events_history [DecidableEq α] (ops : List (VOp α)) (t : TVec α) (l0 l : Live) (hv : t.v.Inv)
+    (h : TVec.TInv t l0 l) (l' : List α) (hs : specRun ops t.v.items = some l') :
+    ∃ t' lv, TVec.run ops t = some t' ∧ t'.v.items = l' ∧ t'.v.Inv ∧ TVec.TInv t' l0 lv := by
+  induction ops generalizing t l with
+  | nil => simp only [specRun, Option.some.injEq] at hs; exact ⟨t, l, rfl, hs, hv, h⟩
+  | cons op ops ih =>
+    simp only [specRun] at hs
+    cases hst : specStep t.v.items op with
+    | none => simp [hst] at hs
+    | some l1 =>
+      simp only [hst, Option.bind_some] at hs
+      obtain ⟨v1, e1, i1, inv1⟩ := vector_step_refines t.v op hv l1 hst
+      have hp := vector_trace_projection t op
+      rw [e1] at hp
+      cases hts : TVec.step t op with
+      | none => simp [hts] at hp
+      | some t1 =>
+        simp only [hts, Option.map_some, Option.some.injEq] at hp
+        obtain ⟨lv1, ti1, _⟩ := vector_events_step t op l0 l h t1 hts
+        obtain ⟨t2, lv2, e2, i2, inv2, ti2⟩ := ih t1 lv1 (hp ▸ inv1) ti1 (by rw [hp, i1]; exact hs)
+        exact ⟨t2, lv2, by simp [TVec.run, hts, e2], i2, inv2, ti2⟩
+
+/-- a freshly created vector starts with an empty log and no constructed cell -/
+theorem vector_events_init : TVec.TInv (TVec.ofVec (Vec.empty : Vec α)) (fun _ => 0) (fun _ => 0) :=
+  ⟨rfl, rfl, Nat.zero_lt_one, fun _ _ => rfl⟩
+
+example : ((TVec.run [VOp.push 1, .push 2, .push 3, .insertRange 0 [7], .erase 1 2, .resize 1 0]
+    (TVec.ofVec (Vec.empty : Vec Nat))).map fun t => (t.v.items, evCounts t.tr, (replay t.tr (fun _ => 0)).isSome)) =
+    some ([7], (10, 2, 9), true) := by
   decide
 
 /-! ## XalanMap / XalanSet: refinement to an insertion-ordered association list -/
@@ -593,6 +696,47 @@ theorem list_history_partial (ops : List (LOp α)) (l : XL α) (n : Nat) (h : XL
       simp only [XL.runOps] at hr
       exact ih l.clear n (XL.clear_spec l n h).1 hr
 
+/-! ### XalanList at pointer level (`PList.lean`: heap of `{value, prev, next}` nodes, the C++ pointer surgery) -/
+
+/-- the pointer writes of `constructNode` / of the linking half of `splice` (`m.prev = p.prev; m.next = p;
+p.prev->next = m; p.prev = m`) turn the ring through `A ++ B` into the ring through `A ++ m :: B`, in both
+directions -/
+theorem plist_ring_link (nx pv : Nat → Nat) (hd m q p : Nat) (A B P P' : List Nat)
+    (hA : hd :: A = P ++ [q]) (hB : hd :: B.reverse = P' ++ [p])
+    (hnd : (hd :: (A ++ B)).Nodup) (hm : m ∉ hd :: (A ++ B))
+    (fwd : lseg nx hd (hd :: (A ++ B)) hd) (bwd : lseg pv hd (hd :: (A ++ B).reverse) hd) :
+    nx q = p ∧ pv p = q ∧
+    lseg (fupd (fupd nx m p) q m) hd (hd :: (A ++ m :: B)) hd ∧
+    lseg (fupd (fupd pv m q) p m) hd (hd :: (A ++ m :: B).reverse) hd :=
+  ring_link nx pv hd m q p A B P P' hA hB hnd hm fwd bwd
+
+/-- the pointer writes of `freeNode` / of the unlinking half of `splice` (`m.prev->next = m.next;
+m.next->prev = m.prev`) turn the ring through `A ++ m :: B` into the ring through `A ++ B` -/
+theorem plist_ring_unlink (nx pv : Nat → Nat) (hd m q p : Nat) (A B P P' : List Nat)
+    (hA : hd :: A = P ++ [q]) (hB : hd :: B.reverse = P' ++ [p])
+    (hnd : (hd :: (A ++ m :: B)).Nodup)
+    (fwd : lseg nx hd (hd :: (A ++ m :: B)) hd) (bwd : lseg pv hd (hd :: (A ++ m :: B).reverse) hd) :
+    nx m = p ∧ pv m = q ∧ nx q = m ∧ pv p = m ∧
+    lseg (fupd nx q (nx m)) hd (hd :: (A ++ B)) hd ∧
+    lseg (fupd pv p (pv m)) hd (hd :: (A ++ B).reverse) hd :=
+  ring_unlink nx pv hd m q p A B P P' hA hB hnd fwd bwd
+
+/-- **constructNode on the heap** (head node present, free chain `m :: fs'`): the executable pointer code
+succeeds, links exactly the free-list head `m` before the position, leaves the free chain `fs'` (LIFO reuse),
+keeps every other node's address, links and value — i.e. it is the node-sequence edit of `XList.lean`. -/
+theorem plist_constructNode_refines (h : PHeap α) (l : PL) (x : α) (A B fs' : List Nat) (m p : Nat) (P' : List Nat)
+    (w : PL.PWF h l (A ++ B) (m :: fs')) (hB : l.head :: B.reverse = P' ++ [p]) :
+    ∃ h' l', PL.constructNode h l x p = some (h', l', m) ∧ PL.PWF h' l' (A ++ m :: B) fs' ∧ l'.head = l.head ∧
+      h'.valOf m = some x ∧ (∀ n, n ≠ m → h'.valOf n = h.valOf n) ∧ h'.nodes.length = h.nodes.length :=
+  PL.constructNode_refines h l x A B fs' m p P' w hB
+
+/-- **freeNode on the heap**: `m` leaves the ring and becomes the head of the free chain. -/
+theorem plist_freeNode_refines (h : PHeap α) (l : PL) (A B fs : List Nat) (m p : Nat) (P' : List Nat)
+    (w : PL.PWF h l (A ++ m :: B) fs) (hB : l.head :: B.reverse = P' ++ [p]) :
+    ∃ h' l', PL.freeNode h l m = some (h', l') ∧ PL.PWF h' l' (A ++ B) (m :: fs) ∧ l'.head = l.head ∧
+      (∀ n, n ≠ m → h'.valOf n = h.valOf n) ∧ h'.nodes.length = h.nodes.length :=
+  PL.freeNode_refines h l A B fs m p P' w hB
+
 /-! ## XalanDOMString -/
 
 
@@ -786,6 +930,43 @@ example :
     (DStr.runOps [SOp.append [1, 2, 3], .resize 0 9] {}).map (fun s => (s.data.items, s.size)) = some ([0], 0) := by
   decide
 
+
+/-! ### XalanDOMString: `const XalanDOMChar*` overloads and the comparison family -/
+
+/-- `append(p)`, `assign(p)`, `insert(pos, p)` with a NUL-terminated buffer use exactly the units before the
+first 0; `assign(p, n)` the first `n` units — with the class invariant kept (`Rep`). -/
+theorem domstring_pointer_overloads (s : DStr) (h : s.Inv) (p : List Nat) (pos : Nat) (hp : pos ≤ s.chars.length) :
+    (∃ s', s.appendZ p = some s' ∧ s'.Inv ∧ s'.chars = s.chars ++ zstr p) ∧
+    (∃ s', s.assignZ p = some s' ∧ s'.Inv ∧ s'.chars = zstr p) ∧
+    (∃ s', s.insertZ pos p = some s' ∧ s'.Inv ∧ s'.chars = s.chars.take pos ++ zstr p ++ s.chars.drop pos) ∧
+    (∀ c, c ≤ p.length → ∃ s', s.assignPtr p c = some s' ∧ s'.Inv ∧ s'.chars = p.take c) := by
+  obtain ⟨h1, h2, h3, h4⟩ := DStr.pointer_overloads (DStr.inv_rep h) p pos hp
+  exact ⟨rep_fin h1, rep_fin h2, rep_fin h3, fun c hc => rep_fin (h4 c hc)⟩
+
+/-- **compare**: the sign of `doCompare` is the lexicographic order of the unit sequences (what
+`std::u16string::compare` decides); 0 exactly for equal sequences. -/
+theorem domstring_compare_spec (l r : List Nat) :
+    (doCompare l r < 0 ↔ l < r) ∧ (doCompare l r = 0 ↔ l = r) ∧ (0 < doCompare l r ↔ r < l) :=
+  ⟨doCompare_neg l r, doCompare_eq_zero l r, doCompare_pos l r⟩
+
+/-- static `equals` / `operator==`, `equalsIgnoreCaseASCII`, `compareIgnoreCaseASCII` -/
+theorem domstring_equals_spec (l r : List Nat) :
+    equalsUnits l r = decide (l = r) ∧
+    equalsIgnoreCaseASCII l r = decide (l.map toUpperASCII = r.map toUpperASCII) ∧
+    (l.length < r.length → compareIgnoreCaseASCII l r = -1) ∧
+    (r.length < l.length → compareIgnoreCaseASCII l r = 1) ∧
+    (l.length = r.length → compareIgnoreCaseASCII l r = doCompare (l.map toUpperASCII) (r.map toUpperASCII)) ∧
+    (compareIgnoreCaseASCII l r = 0 ↔ equalsIgnoreCaseASCII l r = true) :=
+  ⟨equalsUnits_spec l r, equalsIgnoreCaseASCII_spec l r, (compareIgnoreCaseASCII_spec l r).1,
+   (compareIgnoreCaseASCII_spec l r).2.1, (compareIgnoreCaseASCII_spec l r).2.2.1, (compareIgnoreCaseASCII_spec l r).2.2.2⟩
+
+/-- The **unrepaired** `compare(pos, n, p)` with the default length: `"abc".compare(0, 2, "ab")` is -1
+(the repaired code and `std::u16string` give 0). -/
+theorem domstring_compare_npos_as_written_counterexample :
+    (DStr.mk ⟨[97, 98, 99, 0], 4⟩ 3).compareSubAsWritten 0 2 [97, 98, 0] none = -1 ∧
+    (DStr.mk ⟨[97, 98, 99, 0], 4⟩ 3).compareSub 0 2 [97, 98, 0] none = 0 := by
+  decide
+
 /-- The **unrepaired** `resize` leaves the old terminator inside the string: `"ab".resize(5,'x')`
 is `61 62 00 78 78`; the repaired one gives `61 62 78 78 78` (DESIGN §6 item 2). -/
 theorem domstring_resize_as_written_counterexample :
@@ -815,6 +996,243 @@ theorem domstring_append_npos_as_written_counterexample :
     ((DStr.mk ⟨[7, 0], 2⟩ 1).appendSub (DStr.mk ⟨[1, 2, 3, 4, 0], 5⟩ 4) 1 none).map (fun s => (s.size, s.chars)) =
       some (4, [7, 2, 3, 4]) := by
   decide
+
+
+/-! ## Deque, list, map: every element object constructed exactly once before use, destroyed exactly once -/
+
+/-- the element-touching primitives of the deque (`resize` is a loop of the first two, `operator=` is
+`clear()` followed by `push_back`s) -/
+inductive DPrim (α : Type) where
+  | push (x : α)
+  | pop
+  | clear
+
+def Deq.primRun : List (DPrim α) → Deq α → Option (Deq α × List Ev)
+  | [], d => some (d, [])
+  | .push x :: ops, d => (Deq.primRun ops (d.pushBack x)).map fun r => (r.1, d.evPush ++ r.2)
+  | .pop :: ops, d => d.popBack.bind fun d1 => (Deq.primRun ops d1).map fun r => (r.1, d.evPop ++ r.2)
+  | .clear :: ops, d => (Deq.primRun ops d.clear).map fun r => (r.1, d.evClear ++ r.2)
+
+/-- **C20 (deque), event form.** The element events of any history (cells named block-position / index)
+pass the placement discipline and lead from the constructed cells of the start state to those of the end
+state; the block-index invariant is kept. -/
+theorem deque_events_history (ops : List (DPrim α)) (d : Deq α) (h : d.Inv) (d' : Deq α) (evs : List Ev)
+    (hr : Deq.primRun ops d = some (d', evs)) : d'.Inv ∧ replay evs d.liveOf = some d'.liveOf := by
+  induction ops generalizing d evs with
+  | nil => simp only [Deq.primRun, Option.some.injEq, Prod.mk.injEq] at hr; rw [← hr.1, ← hr.2]; exact ⟨h, rfl⟩
+  | cons op ops ih =>
+    cases op with
+    | push x =>
+      simp only [Deq.primRun] at hr
+      cases hrec : Deq.primRun ops (d.pushBack x) with
+      | none => simp [hrec] at hr
+      | some r =>
+        obtain ⟨rd, re⟩ := r
+        simp only [hrec, Option.map_some, Option.some.injEq, Prod.mk.injEq] at hr
+        obtain ⟨rfl, rfl⟩ := hr
+        obtain ⟨i2, h2⟩ := ih (d.pushBack x) (Deq.pushBack_refines d x h).1 re hrec
+        rw [replay_append, Deq.events_push d x h, Option.bind_some]
+        exact ⟨i2, h2⟩
+    | pop =>
+      simp only [Deq.primRun] at hr
+      cases hp : d.popBack with
+      | none => simp [hp] at hr
+      | some d1 =>
+        simp only [hp, Option.bind_some] at hr
+        cases hrec : Deq.primRun ops d1 with
+        | none => simp [hrec] at hr
+        | some r =>
+          obtain ⟨rd, re⟩ := r
+          simp only [hrec, Option.map_some, Option.some.injEq, Prod.mk.injEq] at hr
+          obtain ⟨rfl, rfl⟩ := hr
+          have hne : d.toList ≠ [] := by
+            intro hnil
+            obtain ⟨bs, blocks, fb⟩ := d
+            rcases List.eq_nil_or_concat blocks with rfl | ⟨init, last, rfl⟩
+            · simp [Deq.popBack] at hp
+            · simp only [List.concat_eq_append] at h hnil
+              have := (Deq.inv_snoc.mp h).2.2.1
+              simp [Deq.toList] at hnil
+              rw [hnil.2] at this; simp at this
+          obtain ⟨d1', e1, i1, _, _⟩ := Deq.popBack_refines d h hne
+          rw [hp] at e1; cases e1
+          obtain ⟨i2, h2⟩ := ih d1 i1 re hrec
+          rw [replay_append, Deq.events_pop d d1 h hp, Option.bind_some]
+          exact ⟨i2, h2⟩
+    | clear =>
+      simp only [Deq.primRun] at hr
+      cases hrec : Deq.primRun ops d.clear with
+      | none => simp [hrec] at hr
+      | some r =>
+        obtain ⟨rd, re⟩ := r
+        simp only [hrec, Option.map_some, Option.some.injEq, Prod.mk.injEq] at hr
+        obtain ⟨rfl, rfl⟩ := hr
+        obtain ⟨i2, h2⟩ := ih d.clear (Deq.clear_refines d h).1 re hrec
+        rw [replay_append, Deq.events_clear d, Option.bind_some]
+        exact ⟨i2, h2⟩
+
+def XL.evRun : List (LOp α) → XL α → Nat → Option (XL α × Nat × List Ev)
+  | [], l, n => some (l, n, [])
+  | .insert pos x :: ops, l, n =>
+    (l.constructNode n x pos).bind fun r => (XL.evRun ops r.1 r.2.1).map fun q => (q.1, q.2.1, XL.evConstruct r.2.2 ++ q.2.2)
+  | .erase id :: ops, l, n =>
+    (l.erase (.node id)).bind fun l' => (XL.evRun ops l' n).map fun q => (q.1, q.2.1, XL.evErase id ++ q.2.2)
+  | .clear :: ops, l, n => (XL.evRun ops l.clear n).map fun q => (q.1, q.2.1, l.evClear ++ q.2.2)
+
+/-- **C20 (list), event form.** Insert / erase / clear histories through valid iterators: the element of a
+node is constructed exactly once when the node is linked (new or recycled from the free list) and destroyed
+exactly once when it is unlinked. -/
+theorem list_events_history (ops : List (LOp α)) (l : XL α) (n : Nat) (h : XL.Inv l n) (l' : XL α) (n' : Nat)
+    (evs : List Ev) (hr : XL.evRun ops l n = some (l', n', evs)) :
+    XL.Inv l' n' ∧ replay evs l.liveOf = some l'.liveOf := by
+  induction ops generalizing l n evs with
+  | nil =>
+    simp only [XL.evRun, Option.some.injEq, Prod.mk.injEq] at hr
+    rw [← hr.1, ← hr.2.1, ← hr.2.2]; exact ⟨h, rfl⟩
+  | cons op ops ih =>
+    cases op with
+    | insert pos x =>
+      simp only [XL.evRun] at hr
+      cases hi : l.touch.indexOf pos with
+      | none => simp [XL.constructNode, hi] at hr
+      | some i =>
+        obtain ⟨l1, n1, id, e, inv1, hev⟩ := XL.events_construct l n x pos i h hi
+        rw [e] at hr
+        simp only [Option.bind_some] at hr
+        cases hrec : XL.evRun ops l1 n1 with
+        | none => simp [hrec] at hr
+        | some q =>
+          obtain ⟨ql, qn, qe⟩ := q
+          simp only [hrec, Option.map_some, Option.some.injEq, Prod.mk.injEq] at hr
+          obtain ⟨rfl, rfl, rfl⟩ := hr
+          obtain ⟨i2, h2⟩ := ih l1 n1 inv1 qe hrec
+          rw [replay_append, hev, Option.bind_some]
+          exact ⟨i2, h2⟩
+    | erase id =>
+      simp only [XL.evRun] at hr
+      cases hi : l.indexOf (.node id) with
+      | none => simp [XL.erase, hi] at hr
+      | some i =>
+        obtain ⟨l1, e, inv1, hev⟩ := XL.events_erase l n id i h hi
+        rw [e] at hr
+        simp only [Option.bind_some] at hr
+        cases hrec : XL.evRun ops l1 n with
+        | none => simp [hrec] at hr
+        | some q =>
+          obtain ⟨ql, qn, qe⟩ := q
+          simp only [hrec, Option.map_some, Option.some.injEq, Prod.mk.injEq] at hr
+          obtain ⟨rfl, rfl, rfl⟩ := hr
+          obtain ⟨i2, h2⟩ := ih l1 n inv1 qe hrec
+          rw [replay_append, hev, Option.bind_some]
+          exact ⟨i2, h2⟩
+    | clear =>
+      simp only [XL.evRun] at hr
+      cases hrec : XL.evRun ops l.clear n with
+      | none => simp [hrec] at hr
+      | some q =>
+        obtain ⟨ql, qn, qe⟩ := q
+        simp only [hrec, Option.map_some, Option.some.injEq, Prod.mk.injEq] at hr
+        obtain ⟨rfl, rfl, rfl⟩ := hr
+        obtain ⟨i2, h2⟩ := ih l.clear n (XL.clear_spec l n h).1 qe hrec
+        rw [replay_append, XL.events_clear l n h, Option.bind_some]
+        exact ⟨i2, h2⟩
+
+/-- **C20 (map), event form.** The mapped value of an entry is constructed exactly once by `doCreateEntry`
+(the node is new or recycled from the free list and holds no value then), assigned only while the entry is
+live, destroyed exactly once by `doRemoveEntry` / `clear`; a stale bucket pointer never leads to a second
+destruction. -/
+theorem map_events {κ ν : Type} [DecidableEq κ] (hash : κ → Nat) (m : XMap κ ν) (h : XMap.Inv hash m) :
+    (∀ k v, (∀ e ∈ m.entries, e.key ≠ k) → ∃ m' e, XMap.createEntry hash m k v = some (m', e) ∧ XMap.Inv hash m' ∧
+        replay (XMap.evCreate e.id) m.liveOf = some m'.liveOf) ∧
+    (∀ e ∈ m.entries, replay (XMap.evRemove e.id) m.liveOf = some (XMap.doErase m e.id).liveOf) ∧
+    (∀ e ∈ m.entries, replay (XMap.evAssign e.id) m.liveOf = some m.liveOf) ∧
+    (∀ m', XMap.clear m = some m' → replay m.evClear m.liveOf = some m'.liveOf) := by
+  refine ⟨fun k v hk => XMap.events_create m h k v hk, fun e he => XMap.events_remove m h e he,
+    fun e he => XMap.events_assign m e he, ?_⟩
+  intro m' hc
+  obtain ⟨m2, e2, _, hent⟩ := XMap.clear_spec h
+  rw [hc] at e2; cases e2
+  exact XMap.events_clear m h m' hent
+
+
+/-! ## Capacities and growth thresholds -/
+
+/-- **3252d20**: after the `reserve` that `doCreateEntry` performs before it links the entry, the bucket has
+room for one more pointer, so the final `push_back` cannot re-allocate (and therefore cannot fail). -/
+theorem map_bucket_push_has_room (len cap : Nat) (h : len ≤ cap) : len < XMap.reserveCap len cap := by
+  unfold XMap.reserveCap
+  split
+  · split <;> omega
+  · omega
+
+/-- growth of a bucket vector by plain `push_back` (in `rehash`): always room afterwards, and the 1.6-fold
+growth `⌊1.6·n + 0.5⌋ = (16n+5)/10` is strict -/
+theorem map_bucket_pushCap (len cap : Nat) (h : len ≤ cap) : len < XMap.pushCap len cap ∧ cap ≤ XMap.pushCap len cap := by
+  unfold XMap.pushCap
+  split
+  · omega
+  · split <;> omega
+
+/-- `compactBuckets` never shrinks a bucket below its contents, and leaves a bucket alone unless more than
+half of its capacity is unused -/
+theorem map_compactCap (len cap : Nat) (h : len ≤ cap) :
+    len ≤ XMap.compactCap len cap ∧ (cap - len ≤ len → XMap.compactCap len cap = cap) := by
+  unfold XMap.compactCap
+  simp only
+  constructor
+  · split
+    · split <;> omega
+    · exact h
+  · intro h2; have : ¬ cap - len > len := by omega
+    simp [this]
+
+/-- The rehash points of a map with the default parameters (load factor 0.75, 29 buckets): `doCreateEntry`
+rehashes when `⌊0.75·size⌋` exceeds the bucket count, to `⌊1.6·size⌋` buckets — at the 41st, 88th and 188th
+insertion, to 64, 139 and 299 buckets. -/
+theorem map_default_rehash_points :
+    (∀ s, 3 * s / 4 > 29 ↔ 40 ≤ s) ∧ 8 * 40 / 5 = 64 ∧
+    (∀ s, 3 * s / 4 > 64 ↔ 87 ≤ s) ∧ 8 * 87 / 5 = 139 ∧
+    (∀ s, 3 * s / 4 > 139 ↔ 187 ≤ s) ∧ 8 * 187 / 5 = 299 := by
+  refine ⟨fun s => by omega, by decide, fun s => by omega, by decide, fun s => by omega, by decide⟩
+
+/-- the rehash of `XalanMap` produces exactly `⌊8·size/5⌋` buckets (and is only entered with `size ≥ 1`) -/
+theorem map_rehash_bucket_count {κ ν : Type} [DecidableEq κ] (hash : κ → Nat) (m : XMap κ ν) (h : XMap.Inv hash m)
+    (hs : 0 < 8 * m.size / 5) :
+    ∃ m', XMap.rehash hash m = some m' ∧ m'.buckets.length = 8 * m.size / 5 ∧ m'.entries = m.entries := by
+  obtain ⟨m', e, _, hent, _, _, _⟩ := XMap.rehash_inv h hs
+  refine ⟨m', e, ?_, hent⟩
+  have hne : ¬ 8 * m.size / 5 = 0 := by omega
+  obtain ⟨l1, _, _, _⟩ := XMap.rehash_table hash (8 * m.size / 5) hs m.entries
+    (List.replicate (8 * m.size / 5) []) (by simp)
+  simp only [XMap.rehash, hne, if_false, Option.some.injEq] at e
+  rw [← e]; exact l1
+
+/-- `push_back` on a full vector re-allocates to `⌊1.6·n + 0.5⌋ = (16n+5)/10 > n` elements -/
+theorem vector_push_capacity (v : Vec α) (x : α) (hfull : v.items.length = v.alloc) (hne : 0 < v.items.length) :
+    (v.pushBack x).map (·.alloc) = some ((16 * v.items.length + 5) / 10) ∧
+      v.items.length < (16 * v.items.length + 5) / 10 := by
+  have hg := Vec.growSize_gt v.items.length hne
+  refine ⟨?_, hg⟩
+  have h1 : ¬ v.items.length < v.alloc := by omega
+  have h2 : ¬ v.items.length = 0 := by omega
+  have h3 : v.items.length < max v.items.length (Vec.growSize v.items.length) := by omega
+  simp [Vec.pushBack, Vec.doPushBack, h1, h2, Vec.rawPush, Vec.copyWith, hne, h3, Vec.growSize]
+  unfold Vec.growSize at hg; omega
+
+/-- no block of a deque ever re-allocates: under the block-index invariant every block holds at most
+`blockSize` elements (its capacity from construction), all but the last exactly that many -/
+theorem deque_block_capacity (d : Deq α) (h : d.Inv) :
+    (∀ b ∈ d.blocks, b.length ≤ d.blockSize) ∧ (∀ b ∈ d.blocks.dropLast, b.length = d.blockSize) := by
+  refine ⟨?_, h.2.1⟩
+  intro b hb
+  rcases List.eq_nil_or_concat d.blocks with hnil | ⟨init, last, hcat⟩
+  · rw [hnil] at hb; cases hb
+  · rw [hcat, List.concat_eq_append] at hb
+    rcases List.mem_append.mp hb with h1 | h1
+    · have := h.2.1 b (by rw [hcat, List.concat_eq_append, List.dropLast_concat]; exact h1); omega
+    · have hl : d.blocks.getLast? = some last := by rw [hcat, List.concat_eq_append, List.getLast?_concat]
+      have : b = last := by simpa using h1
+      rw [this]; exact (h.2.2 last hl).2
 
 /-! ## XalanSet (= `XalanMap<Value, bool>` with delegating members): refinement to a duplicate-free key list -/
 
